@@ -76,6 +76,12 @@ def _warn_two():
     warnings.warn("other", UserWarning, 2)
 
 
+def _warn_twice_same_line():
+    # a deprecated helper used in a loop: the same warning, from the same line, twice
+    for _ in range(2):
+        warnings.warn("x is deprecated", DeprecationWarning, 2)
+
+
 class Scratch:
     """Scratch directory tree for the path matchers."""
 
@@ -115,7 +121,7 @@ def domains(scratch=None):
         DICT: [{}, {"x": 1}, {"x": 1, "y": 2}, {"y": 1}, {"x": 2}, {"x": 1, "y": 0}, {"z": None}, {"x": 0}, {1: 0, "y": 0, "x": 1}],
         OBJ: [Obj(a=1, b=2), Obj(a=1, b=1), Obj(a=0, b=2)],
         EXC: [_exc_info(ValueError("a")), _exc_info(KeyError("b")), _exc_info(KeyboardInterrupt())],
-        CALL: [_ret1, _raise_value, _raise_key, _warn_dep, _warn_two, _raise_kbi, _raise_abort],
+        CALL: [_ret1, _raise_value, _raise_key, _warn_dep, _warn_two, _warn_twice_same_line, _raise_kbi, _raise_abort],
         LISTLIST: [[], [[]], [[1]], [[1], []], [[1, 2], [1]], [[2]]],
         DICTLIST: [{}, {"x": []}, {"x": [1]}, {"x": [2], "y": []}],
         STRLIST: [[], ["a", "b"], ["a"]],
@@ -220,6 +226,14 @@ def leaves(scratch=None):
     add(OBJ, "MatchesStructure.byMatcher(LessThan, a=1, b=3)", lambda: M.MatchesStructure.byMatcher(M.LessThan, a=1, b=3), lambda v: v.a < 1 and v.b < 3)
     add(OBJ, "MatchesStructure.fromExample(Obj(a=1,b=2),'a','b')", lambda: M.MatchesStructure.fromExample(Obj(a=1, b=2), "a", "b"), lambda v: v.a == 1 and v.b == 2)
     add(OBJ, "fromExample(...).update(b=None)", lambda: M.MatchesStructure.fromExample(Obj(a=1, b=2), "a", "b").update(b=None), lambda v: v.a == 1)
+    def _base_after_update(**changes):
+        # the matcher update() was called ON (a project-wide base matcher that variants are derived from)
+        base = M.MatchesStructure.fromExample(Obj(a=1, b=2), "a", "b")
+        base.update(**changes)
+        return base
+
+    add(OBJ, "base of .update(b=Equals(1))", lambda: _base_after_update(b=M.Equals(1)), lambda v: v.a == 1 and v.b == 2)
+    add(OBJ, "base of .update(b=None)", lambda: _base_after_update(b=None), lambda v: v.a == 1 and v.b == 2)
     add(OBJ, "fromExample(...).update(b=Equals(1))", lambda: M.MatchesStructure.fromExample(Obj(a=1, b=2), "a", "b").update(b=M.Equals(1)), lambda v: v.a == 1 and v.b == 1)
     add(OBJ, "Equals(Obj(a=1,b=2))", lambda: M.Equals(Obj(a=1, b=2)), lambda v: v == Obj(a=1, b=2))
     # exc_info
